@@ -8,7 +8,8 @@ import talgen
 PID = 'C19'
 PROOF_MODULES = ['ChamProofs.Props.C19']
 THEOREMS = ['ChamVerif.laxFilter_ok', 'ChamVerif.compileEN_strict_ok_lax', 'ChamVerif.compileCond_strict_ok_lax',
-            'ChamVerif.checkNode_strict_ok_lax', 'ChamVerif.compileCheck_strict_ok_lax', 'ChamVerif.C19_same_when_valid']
+            'ChamVerif.checkNode_strict_ok_lax', 'ChamVerif.compileCheck_strict_ok_lax', 'ChamVerif.C19_same_when_valid',
+            'ChamVerif.C19_strict_rejects', 'ChamVerif.C19_lax_accepts', 'ChamVerif.C19_deferred_error']
 LEVEL_TEXT = ('Proved in Lean for every template, configuration and binding of the pipeline model: whatever the strict compile pass accepts, the '
               'non-strict pass accepts with the same result (checkNode_strict_ok_lax, induction on the fuel over every node kind and the '
               'expression nodes), hence rendering under strict=False equals rendering under strict=True whenever strict compilation succeeds '
